@@ -23,6 +23,7 @@ func init() {
 }
 
 func runC01(c *Ctx, r *Report) {
+	defer round8(c, r, "C01")
 	l := c.L
 	bp := l.Fn("fzf", "BuildPattern")
 	em := l.Fn("fzf", "(*Pattern).extendedMatch")
@@ -220,7 +221,7 @@ func runC01(c *Ctx, r *Report) {
 	c01r8(c, r)
 	c01r9(c, r)
 	c02r12(c, r) // accent folding of the query in --no-extended mode
-	c13r3(c, r) // a leftover worker of a cancelled scan shares its slab with the next scan: wrong matches
+	c13r3(c, r)  // a leftover worker of a cancelled scan shares its slab with the next scan: wrong matches
 	c02r10(c, r) // the pattern side and the text side fold the same letters
 	c01r4(c, r)
 	c02r8(c, r) // case and accent folding are the same in every matcher
